@@ -54,12 +54,13 @@ def peers(tier):
 def make_server(spec):
     hk = P.standard_host_keys(spec['key'], **spec['hk'])
     gex = P.GexPolicy([spec['gex']], P.STRICT) if spec.get('gex') else None
-    return P.Server(kex=spec['kex'], key=spec['key'], enc=spec['enc'], mac=spec['mac'], host_keys=hk, gex=gex,
-                    banner=b'SSH-2.0-dropbear_2022.83')
+    return P.Server(kex=spec['kex'], key=spec['key'], enc=spec['enc'], mac=spec['mac'], enc_c2s=spec.get('enc_c2s'), mac_c2s=spec.get('mac_c2s'),
+                    host_keys=hk, gex=gex, banner=b'SSH-2.0-dropbear_2022.83')
 
 
 def make_client(spec):
-    return P.Client(kex=spec['kex'], key=spec['key'], enc=spec['enc'], mac=spec['mac'], banner=b'SSH-2.0-OpenSSH_9.6')
+    return P.Client(kex=spec['kex'], key=spec['key'], enc=spec.get('enc_c2s', spec['enc']), mac=spec.get('mac_c2s', spec['mac']),
+                    enc_s2c=spec['enc'], mac_s2c=spec['mac'], banner=b'SSH-2.0-OpenSSH_9.6')
 
 
 def perturbations(spec, role):
@@ -225,6 +226,13 @@ def run(tier, seed):
     ps = peers(tier)
     tasks = [(s, 'server') for s in ps]
     cl = [s for s in ps if s['kn'] in ('ed', 'rsa2048') and not s.get('gex')]
+    # the two directions of a KEXINIT may differ (legal, unusual): both roles
+    asym = []
+    for base in cl[:6]:
+        a = dict(base, kn=base['kn'] + '-asym', enc_c2s=['aes128-ctr', 'enc+odd/name@example.org'], mac_c2s=['hmac-sha2-512', 'umac-64@openssh.com'])
+        asym.append(a)
+    cl = cl + asym
+    tasks += [(s, 'server') for s in asym]
     tasks += [(s, 'client') for s in cl]
     st = par.pmap(work, tasks, chunk=2)
     par.pmap(work_builtin, builtin_tasks(), stats=st, chunk=4)
